@@ -145,6 +145,13 @@ def gen_asset_rows(rng, asset, exchanges, holders, flags, start_year):
     ts_styles = flags.get("ts_styles") or ["space"]
 
     last_kind = [None]
+    # few distinct prices: equal spot prices on different lots (ranking ties of price-based methods, equal sort keys)
+    price_pool = [_price(rng) for _ in range(rng.choice([1, 2, 3]))] if flags.get("few_prices") else None
+
+    def price_of():
+        if price_pool and rng.random() < 0.8:
+            return rng.choice(price_pool)
+        return _price(rng)
 
     def next_t(kind=None):
         nonlocal t
@@ -199,7 +206,7 @@ def gen_asset_rows(rng, asset, exchanges, holders, flags, start_year):
         if not force_type and flags.get("in_focus") and rng.random() < 0.9:
             ttype = rng.choice(flags["in_focus"])
         amt = _amount(rng, style)
-        price = _price(rng)
+        price = price_of()
         r.update({"exchange": e, "holder": h, "transaction_type": ttype, "spot_price": price, "crypto_in": amt,
                   "crypto_fee": None, "fiat_in_no_fee": None, "fiat_in_with_fee": None, "fiat_fee": None})
         k = rng.random()
@@ -243,7 +250,7 @@ def gen_asset_rows(rng, asset, exchanges, holders, flags, start_year):
         if not force_type and flags.get("out_focus") and rng.random() < 0.9:
             ttype = rng.choice(flags["out_focus"])
         total = b if (everything or rng.random() < 0.2) else _frac(rng, b, style)
-        price = _price(rng)
+        price = price_of()
         if ttype == "FEE":
             no_fee, fee = Decimal(0), total
         else:
@@ -286,7 +293,7 @@ def gen_asset_rows(rng, asset, exchanges, holders, flags, start_year):
             recv = sent - fee if fee < sent else sent
         else:
             recv = Decimal(0)
-        price = _price(rng)
+        price = price_of()
         if recv == sent and rng.random() < 0.5:
             price = None
         r.update({"from_exchange": fe, "from_holder": fh, "to_exchange": te, "to_holder": th, "spot_price": price,
